@@ -101,7 +101,7 @@ func c12Resources(sc c12Scen) (entry string, res map[string][]byte, order []stri
 	}
 	cs := c10Case{Container: "fmp4", Tracks: "va", Frags: 1, PDT: true, VOD: true, NSeg: sc.NSeg}
 	switch sc.Stream {
-	case "fmp4-v+a":
+	case "fmp4-v+a", "fmp4-v+a-extra":
 		cs.Tracks = "v+a"
 	case "ts-va":
 		cs.Container = "ts"
@@ -129,6 +129,15 @@ func c12Resources(sc c12Scen) (entry string, res map[string][]byte, order []stri
 		res[fmt.Sprintf("r%d.m3u8", ri)] = []byte(st.playlist(ri))
 		if r.init != nil {
 			res[fmt.Sprintf("r%d_init", ri)] = r.init
+			if sc.Stream == "fmp4-v+a-extra" && ri == 0 {
+				// the leading stream's init segment announces one more track, of a codec the client cannot decode: the leading
+				// stream ends with an error after the other stream has started to wait for it
+				b, err := buildInit(append(append([]sTrack{}, r.tracks...), sTrack{Kind: "ac3", ID: len(r.tracks) + 1, TimeScale: 48000}))
+				if err != nil {
+					panic(err)
+				}
+				res["r0_init"] = b
+			}
 		}
 		for j, s := range r.segs {
 			res[fmt.Sprintf("r%d_seg%d", ri, j)] = s.Body
@@ -337,6 +346,12 @@ func c12Harness(sc c12Scen) vsched.Harness {
 						want["eos"] = true
 					}
 				}
+				if sc.Stream == "fmp4-v+a-extra" {
+					// the content error of the leading stream (its init segment announces a track that cannot be decoded) may
+					// come before whatever else ends the session; the end of the stream is never reached
+					delete(want, "eos")
+					want["unsupported"] = true
+				}
 				if st.closedBeforeEnd {
 					want["terminated"] = true
 					// a fault / EOS that had already happened may still win
@@ -371,6 +386,8 @@ func c12Harness(sc c12Scen) vsched.Harness {
 					got = "hint-disappeared"
 				case strings.Contains(s, "context canceled"):
 					got = "canceled"
+				case strings.Contains(s, "unsupported codec"):
+					got = "unsupported"
 				}
 				if !want[got] {
 					var w []string
@@ -403,8 +420,8 @@ func c12Scens(tier string) []c12Scen {
 		bound = 2
 	}
 	for _, policy := range []int{0, 1, 2} {
-		for _, stream := range []string{"fmp4-va", "fmp4-v+a", "ts-va", "ll", "ts-big", "fmp4-frags"} {
-			nreq := map[string]int{"fmp4-va": 4, "fmp4-v+a": 9, "ts-va": 3, "ll": 8, "ts-big": 2, "fmp4-frags": 4}[stream]
+		for _, stream := range []string{"fmp4-va", "fmp4-v+a", "ts-va", "ll", "ts-big", "fmp4-frags", "fmp4-v+a-extra"} {
+			nreq := map[string]int{"fmp4-va": 4, "fmp4-v+a": 9, "ts-va": 3, "ll": 8, "ts-big": 2, "fmp4-frags": 4, "fmp4-v+a-extra": 6}[stream]
 			nseg := 2
 			for _, fault := range []string{"none", "404", "500", "neterr", "stall", "ontracks", "503stall", "timeout", "truncated"} {
 				if (fault == "503stall" || fault == "timeout" || fault == "truncated") && policy != 0 && tier != "thorough" {
